@@ -7,8 +7,19 @@ import random
 from .common import ElemError, SrcError, SubmitError, strip
 
 
-def gen_scenarios(rnd: random.Random, count, max_n=6, max_cap=3):
+def corner_scenarios(max_n=6):
+    """early stop (break + aclose) with MORE than capacity+1 elements left in the source: unless the stop flag reaches the
+    feeder, it refills the drained queue and then blocks for ever while the finalizer awaits it"""
     out = []
+    for cap, brk, retexc in ((1, 1, True), (1, 2, False), (2, 1, True)):
+        out.append({'n': max_n, 'cap': cap, 'conc': 8, 'retexc': retexc, 'fail': [], 'subfail': 0, 'prefail': [],
+                    'srcfail': 0, 'srcbase': False, 'maybreak': True, 'mode': 'async', 'variant': 'afifo', 'retx': True,
+                    'break_at': brk, 'usepre': False, 'dur': [0] + [1] * max_n, 'srcdur': [0] * (max_n + 2)})
+    return out
+
+
+def gen_scenarios(rnd: random.Random, count, max_n=6, max_cap=3):
+    out = corner_scenarios(max_n)
     for _ in range(count):
         n = rnd.randint(0, max_n)
         variant = rnd.choice(['afifo', 'afifo', 'aparmap'])
